@@ -51,6 +51,7 @@ import (
 	"github.com/google/inverting-proxy/agent/sessions"
 	"github.com/google/inverting-proxy/agent/utils"
 	"github.com/google/inverting-proxy/agent/websockets"
+	"github.com/google/inverting-proxy/verifhook"
 )
 
 const (
@@ -147,6 +148,7 @@ func hostProxy(ctx context.Context, host, shimPath string, injectShimCode, force
 // the backend server and reports the response back to the proxy.
 func forwardRequest(client *http.Client, hostProxy http.Handler, request *utils.ForwardedRequest) error {
 	httpRequest := request.Contents
+	verifhook.Emit("WForward", "id", request.RequestID, "user", request.User)
 	if *debug {
 		log.Printf("Request %s: %s %s %v\n", request.RequestID, request.Contents.Method, request.Contents.Host, request.Contents.ContentLength)
 	}
@@ -164,15 +166,19 @@ func forwardRequest(client *http.Client, hostProxy http.Handler, request *utils.
 	if *debug {
 		log.Printf("Backend latency for request %s: %s\n", request.RequestID, time.Since(request.StartTime).String())
 	}
+	verifhook.Emit("WServed", "id", request.RequestID)
 	if err := responseForwarder.Close(); err != nil {
+		verifhook.Emit("WClosed", "id", request.RequestID, "ok", false)
 		return fmt.Errorf("failed to close the response forwarder: %v", err)
 	}
+	verifhook.Emit("WClosed", "id", request.RequestID, "ok", true)
 	return nil
 }
 
 // healthCheck issues a health check against the backend server
 // and returns the result.
 func healthCheck() error {
+	verifhook.Emit("HealthProbe")
 	resp, err := http.Get("http://" + *host + *healthCheckPath)
 	if err != nil {
 		log.Printf("Health Check request failed: %s", err.Error())
@@ -210,17 +216,24 @@ func pollForNewRequests(pollingCtx context.Context, client *http.Client, hostPro
 		select {
 		case <-pollingCtx.Done():
 			log.Printf("Request polling context completed with ctx err: %v\n", pollingCtx.Err())
+			verifhook.Emit("PollStop")
 			return
 		default:
+			verifhook.Emit("PollCheck")
+			verifhook.Gate("agent.pollcheck")
 			if requests, err := utils.ListPendingRequests(client, *proxy, backendID, metricHandler); err != nil {
 				log.Printf("Failed to read pending requests: %q\n", err.Error())
+				verifhook.Emit("ListFail", "retry", retryCount)
 				time.Sleep(utils.ExponentialBackoffDuration(retryCount))
 				retryCount++
 			} else {
 				retryCount = 0
+				verifhook.Emit("ListOK", "ids", requests)
 				for _, requestID := range requests {
+					verifhook.Emit("Dedup", "id", requestID)
 					if _, ok := previouslySeenRequests.Get(requestID); !ok {
 						previouslySeenRequests.Add(requestID, requestID)
+						verifhook.Emit("Spawn", "id", requestID)
 						go processOneRequest(client, hostProxy, backendID, requestID)
 					}
 				}
@@ -287,6 +300,7 @@ func runHealthChecks() {
 		} else {
 			badHealthChecks = 0
 		}
+		verifhook.Emit("Health", "bad", badHealthChecks, "threshold", *healthCheckUnhealthy)
 		if badHealthChecks >= *healthCheckUnhealthy {
 			ticker.Stop()
 			log.Fatal("Too many unhealthy checks")
@@ -337,6 +351,7 @@ func main() {
 	}
 
 	waitForHealthy()
+	verifhook.Emit("Healthy", "enabled", *healthCheckFreq > 0)
 	go runHealthChecks()
 
 	requestPollingCtx, requestPollingCancel := context.WithCancel(ctx)
@@ -349,11 +364,14 @@ func main() {
 
 	osShutdownSignalCh := utils.ShutdownSignalChan()
 	<-osShutdownSignalCh
+	verifhook.Emit("Signal", "grace_ms", gracefulShutdownTimeout.Milliseconds())
 
 	if *gracefulShutdownTimeout > 0 {
 		requestPollingCancel()
+		verifhook.Emit("Cancel")
 		log.Printf("Begin graceful shutdown. Wait for: %v\n", *gracefulShutdownTimeout)
 		time.Sleep(*gracefulShutdownTimeout)
+		verifhook.Emit("GraceEnd")
 		log.Fatal("Graceful shutdown wait timer end. Shutting down server.")
 	}
 }
